@@ -162,6 +162,10 @@ AlleleMatrix* AlleleMatrix::extractInterval(Position start, Position end, bool r
                 defPos.insert(localToGlobal(entry.first));
             }
         }
+        if (removeEmpty && newRead.empty()) {
+            // spans the interval but has no allele inside it
+            continue;
+        }
         idList.push_back(globalReadIds[i]);
         newReads.push_back(newRead);
     }
